@@ -91,3 +91,29 @@ def func_returns(func):
         if isinstance(n, ast.Return):
             out.append(n.value)
     return out
+
+
+def explode_assigns(stmts):
+    """a statement list in which a parallel assignment `a, b = x, y` whose right-hand sides do not
+    read a target of the same statement is replaced by the equivalent simple assignments
+    (synthetic Assign nodes that share position and parent with the original)"""
+    out = []
+    for st in stmts:
+        if isinstance(st, ast.Assign) and len(st.targets) == 1 and isinstance(st.targets[0], ast.Tuple) \
+                and isinstance(st.value, ast.Tuple) and len(st.targets[0].elts) == len(st.value.elts):
+            tgts = [ast.unparse(t) for t in st.targets[0].elts]
+            ok = True
+            for k, v in enumerate(st.value.elts):
+                for x in ast.walk(v):
+                    if isinstance(x, (ast.Name, ast.Attribute)) and ast.unparse(x) in tgts[:k]:
+                        ok = False
+            if ok:
+                for t, v in zip(st.targets[0].elts, st.value.elts):
+                    a = ast.Assign(targets=[t], value=v)
+                    for attr in ('lineno', 'col_offset', 'end_lineno', 'end_col_offset', '_mod', '_fn', '_parent'):
+                        if hasattr(st, attr):
+                            setattr(a, attr, getattr(st, attr))
+                    out.append(a)
+                continue
+        out.append(st)
+    return out
